@@ -234,8 +234,18 @@ struct Ctxt {
     ffi_names: Vec<String>,
 }
 
+/// The function under test; with a `caller` (PolicyLang Focus = "ret") the derived function is
+/// rendered as `<name>_c` and `<name>` is the caller that invokes it as `callee(..)`.
 fn function_text(p: &Prog) -> String {
-    render::render_function(&p.name, &p.item["params"], &p.item["rt"], &p.item["body"])
+    match p.item.get("caller") {
+        None => render::render_function(&p.name, &p.item["params"], &p.item["rt"], &p.item["body"]),
+        Some(caller) => {
+            let callee_name = format!("{}_c", p.name);
+            let callee = render::render_function(&callee_name, &p.item["params"], &p.item["rt"], &p.item["body"]);
+            let outer = render::render_function(&p.name, &p.item["params"], &p.item["crt"], caller);
+            format!("{callee}{}", render::rename_ident(&outer, "callee", &callee_name))
+        }
+    }
 }
 
 fn document(cx: &Ctxt, progs: &[Prog]) -> String {
